@@ -60,7 +60,7 @@ func c07KeyScenario(c *choice.Ctx, rep *report.R) {
 	vars := c07Variants()
 	vi := c.Choose(len(vars), "variant")
 	baseGroup := c.Choose(3, "base-client") // g1 client, ungrouped client, no marker file configured
-	rev := c.Choose(2, "direction")          // store variant first, then ask base
+	rev := c.Choose(2, "direction")         // store variant first, then ask base
 	va := vars[vi]
 	base := c07Q{refdns.N("www", "example", "test"), 1, 1, "10.0.0.7"}
 	sameKey := va.sameKey
